@@ -102,6 +102,7 @@ func c11ProviderStoresRange(c *Ctx) {
 
 func runC11(c *Ctx) {
 	c11ProviderStoresRange(c)
+	c11LastLayerTypes(c)
 	rule := "F1-range-reaches-resolve"
 	if v := c.View("(*router.Connector).SetPortRange"); v != nil {
 		v.RequireCallArgs(rule, 1, "(*router.dataPlane).SetPortRange", "recv.DataPlane",
